@@ -237,7 +237,9 @@ func init() {
 					}
 				default:
 					r := rng.Fork(i)
-					if r.Chance(1, 3) {
+					if r.Chance(1, 2) {
+						host = "[" + structuredIPv6(i-total-totalBr, r) + "]"
+					} else if r.Chance(1, 3) {
 						host = r.Pick(ipv6Shapes)
 					} else {
 						host = r.genIPv6()
@@ -307,6 +309,40 @@ func c0Encode(s string) string {
 		} else {
 			sb.WriteByte(s[i])
 		}
+	}
+	return sb.String()
+}
+
+// structuredIPv6 enumerates piece counts 0..9 x position of "::" (none, or before piece k for k = 0..n,
+// n meaning trailing) x {no tail, dotted-decimal tail}; piece values vary with the rng.
+func structuredIPv6(k int, r *Rng) string {
+	n := k % 10
+	k /= 10
+	cpos := k%(n+2) - 1 // -1 = no compression
+	k /= (n + 2)
+	tail := k%3 == 1
+	var sb strings.Builder
+	for i := 0; i < n; i++ {
+		if i == cpos {
+			if i == 0 {
+				sb.WriteString("::")
+			} else {
+				sb.WriteString(":")
+			}
+		}
+		sb.WriteString(r.Pick([]string{"0", "1", "a", "ff", "abcd", "0", "10", "00f"}))
+		if i < n-1 {
+			sb.WriteString(":")
+		}
+	}
+	if cpos == n {
+		sb.WriteString("::")
+	}
+	if tail {
+		if n > 0 && cpos != n {
+			sb.WriteString(":")
+		}
+		sb.WriteString(r.Pick([]string{"1.2.3.4", "0.0.0.0", "255.255.255.255", "1.2.3", "01.2.3.4"}))
 	}
 	return sb.String()
 }
